@@ -100,6 +100,20 @@ def scripts(rng, tmpdir):
     probe_ = ['cal get_parameter_value 0 %d %s' % (u, vlib.d2h(1.5e9)), 'cal get_parameter_value 0 %d %s' % (u, vlib.d2h(1.0e9))]
     lines_ += probe_ + ['cal add_calibration 0 %s 1' % h('two'), 'cal free 0']
     S.append(('calibration-resolve', lines_, {i_solve2: probe_}))
+    # the 8th and the 16th distinct parameter of one vnacal_new_t are unknown ones (the per-calibration parameter table grows there)
+    for nknown in (4, 12):
+        C = c02.Sc(rng, 'T8', 1, 1, 2, form='m').begin()
+        for code in (calsim.MATCH, calsim.OPEN, calsim.SHORT):
+            C.add_reflect(1, code)
+        for _ in range(nknown):
+            gk = calsim.rc(rng, 0.5)
+            C.std1(1, C.scalar(gk), gk)
+        gu = 0.4 + 0.2j
+        uu = C.unknown(0.3 + 0.1j, gu)
+        C.std1(1, uu, gu)
+        C.solve()
+        C.lines += ['cal get_parameter_value 0 %d %s' % (uu, vlib.d2h(C.fvec[0])), 'cal add_calibration 0 %s 0' % h('m'), 'cal free 0']
+        S.append(('calibration-%d-params' % (nknown + 4), C.lines))
     return S
 
 
